@@ -54,7 +54,7 @@ CHECKS.update({
     ),
     "C08": dict(
         text="Lean 4 theorems: (1) over regenerated tables: the model's materialisation dispatch covers every registered (algorithm, op, function); shipped recipes load, are single '.*'/'*' rules and carry policy-accepted configs; (2) TOTALITY of the graph stage (QProps/C08b): for every well-formed model and every request set of the closed shape whose parameters are in the table and which does not mix 'unquantized' with 'quantize in place' on one tensor, instruction generation + performer cannot raise (modify_total, performer_total) and return a well-formed graph (modify_total_wf); each added hypothesis is shown necessary by a kernel-checked counterexample. Rejection-freedom of the whole pipeline is executed: all shipped recipes x generated normal-form models (incl. reshape-to-scalar, bool outputs, unnamed single signatures).",
-        note="C08c + C08d: complete inventory of the raise sites of the materialisation stage; under Hyp (normal form, complete statistics as delivered by calibrate(), no skip_checks, converter operand shapes), Unshared (no tied constants) and Bounded (constants and statistics within 2^63 with all-ones statistic shapes -- delivered by calibrate() on float32 contents --, biases of the channel count, float16-cast weights within 65504) quantizePure RETURNS a well-formed model (quantize_total, no remaining disjunct); every hypothesis shown necessary by a closed run; for every shipped recipe and operator name resolution selects no-quantize or a registered legal function (shipped_resolution, shipped_coverage); graph stage total (C08b). Limits: stats_bounded_of_calibration covers a fresh calibration of one subgraph; runtime acceptance of the returned model is C01's executed clause",
+        note="C08c + C08d: complete inventory of the raise sites of the materialisation stage; under Hyp (normal form, complete statistics as delivered by calibrate(), no skip_checks, converter operand shapes), Unshared (no tied constants) and Bounded (constants and statistics within 2^63 with all-ones statistic shapes -- delivered by calibrate() on float32 contents --, biases of the channel count, float16-cast weights within 65504) quantizePure RETURNS a well-formed model (quantize_total, no remaining disjunct); every hypothesis shown necessary by a closed run; for every shipped recipe and operator name resolution selects no-quantize or a registered legal function (shipped_resolution, shipped_coverage); graph stage total (C08b). C08e: statistics produced by ANY list of (subgraph, samples) calibration sessions (several signatures, resumed sessions) and statistics restored from json (.exact format) are bounded and complete, so quantize_total_of_sessions / quantize_total_restored return a well-formed model for them; the rank-1 branch of fix_quantization_params_rank is unreachable from calibrated statistics (fixRank_calibrated, fixRank_expand_fails). Remaining restriction: PassRuntime (a selected RESHAPE/TRANSPOSE acts on a runtime tensor); runtime acceptance of the returned model is C01's executed clause",
         design="§6 C08",
     ),
     "C09": dict(
